@@ -21,7 +21,8 @@
 From Coq Require Import List ZArith QArith Qround Qabs Bool Arith Lia.
 From LMBase Require Import Res ListX IEEE.
 From LMDist Require Import GenDist DistSkel DistModel DistInst DistProofs DistConv DistTail DistBuild DistThms
-  DistDyadic DistCheckProofs DistStretch DistIEEE DistTotal DistNaive DistWords DistRound DistGridModel DistGrid DistBest DistMonoIEEE DistMaxGen.
+  DistDyadic DistCheckProofs DistStretch DistIEEE DistTotal DistNaive DistWords DistRound DistGridModel DistGrid DistBest DistMonoIEEE DistMaxGen
+  DistStrictModel DistPdfIEEE DistMonoBuilt DistStrict DistTight DistScaleIEEE DistLenGen.
 Import ListNotations.
 Local Open Scope Q_scope.
 
@@ -354,6 +355,142 @@ Theorem C11_pvalue_monotone_binary64 : forall (d : dist F64.t) s1 s2 p1 p2,
 Proof. exact pvalue_monotone_F64. Qed.
 
 (* ====================================================================== *)
+(* Round 3, wave 3 (review of 2026-10-02): binary64 without hypotheses about *)
+(* the pdf or the table; the domain at M = 0; a checker that cannot fail open *)
+(* ====================================================================== *)
+
+(* The density computed by the convolution loop is finite and non-negative in binary64 itself: for a
+   background of finite doubles in [0,1] ([f64_bg_ok]: what `Background::new` / `from_counts` guarantee;
+   NO assumption on its sum) and dimensions with c * M <= 1023, c = ceil(log2(K+1)) <= 52
+   ([f64_dims_ok]: M <= 341 for DNA, M <= 204 for proteins) every entry of the pdf is a finite double
+   >= 0 -- no NaN, no infinity, no negative entry: a product old*b with 0 <= b <= 1 rounds into
+   [0, old], a partial sum of t such products is at most t * 2^(c*i), a representable number below the
+   overflow threshold.  This is the hypothesis that C11_table_ieee leaves open. *)
+Theorem C11_pdf_binary64 : forall bg data pdf,
+  f64_bg_ok bg = true -> f64_dims_ok (length bg) (length data) = true ->
+  pdf_of F64Ops bg data = Ok pdf ->
+  Forall (fun x => F64.is_finite x = true /\ F64.le F64.zero x = true) pdf.
+Proof. exact pdf_F64_finite_nonneg. Qed.
+
+(* Hence the tabulated survival function of EVERY distribution built by the bit-exact model is
+   non-increasing with values in [0,1] and finite -- in IEEE binary64 arithmetic, for every matrix (any
+   cells for which the construction answers: the cells only select positions), nothing assumed about
+   the pdf or the table. *)
+Theorem C11_table_binary64 : forall m bg d,
+  f64_bg_ok bg = true -> f64_dims_ok (length bg) (length m) = true ->
+  f64_build m bg = Ok d ->
+  noninc f64_leP (d_sf d) /\ Forall (in01 F64Ops f64_leP) (d_sf d) /\
+  Forall (fun x => F64.is_finite x = true) (d_sf d).
+Proof. exact table_F64_built. Qed.
+
+(* p-values of a built distribution are non-increasing in the score in binary64 itself: the table part of
+   f64_mono_pred (non-increasing in [0,1], non-empty, min_score >= 0) is derived from the construction;
+   what remains is [f64_scale_pred d]: w*offset finite, scale finite and positive -- a function of
+   (scale, offset, M) only, evaluated by the driver on every case.  It is NOT implied by the domain:
+   ex_scale_pred_not_derivable (a constant matrix 2^60: large - 1.0 == large in binary64, scale = +inf). *)
+Theorem C11_pvalue_monotone_binary64_built : forall m bg (d : dist F64.t) s1 s2 p1 p2,
+  f64_bg_ok bg = true -> f64_dims_ok (length bg) (length m) = true ->
+  f64_build m bg = Ok d -> f64_scale_pred d = true ->
+  F64.le s1 s2 = true ->
+  d_pvalue F64Ops d s1 = Ok p1 -> d_pvalue F64Ops d s2 = Ok p2 ->
+  le_n F64Ops p2 p1 = true.
+Proof. exact pvalue_monotone_F64_built. Qed.
+
+(* ... and on a built distribution the predicate of C11_pvalue_monotone_binary64 IS its scale part *)
+Theorem C11_mono_pred_built : forall m bg d,
+  f64_bg_ok bg = true -> f64_dims_ok (length bg) (length m) = true ->
+  f64_build m bg = Ok d -> f64_mono_pred d = f64_scale_pred d.
+Proof. exact mono_pred_built. Qed.
+
+(* The scale part DERIVED for the matrices that occur in practice: cells given as f32 bit patterns (what
+   `ScoringMatrix<A>` holds), no NaN, and either two different non-infinite cells ([f32_matrix_ok]) or a constant
+   matrix of magnitude at most 2^52 ([f32_matrix_ok_const]) -- [f32_matrix_ok_any], computable on the bit
+   patterns -- and at most 2^53 rows.  In binary64 itself: small0 <= large are cells; for small0 < large the offset
+   floor(small0) is a finite integer below large; for a constant matrix large - 1.0 stays strictly below large (the
+   integer ceil(large) - 1 lies in [large - 1, large) and is a double) and so does its floor; large - offset is a
+   positive multiple of 2^-149 (every finite f32 widened to f64 is on that grid: DistScaleIEEE.of_f32_G149), at most
+   2^130; 1000 / it lies in [2^-121, 2^159]; so the scale is finite and positive and w*offset is finite. *)
+Theorem C11_scale_pred_f32 : forall mb bg d,
+  f32_matrix_ok_any mb = true -> (Z.of_nat (length mb) <= 2 ^ 53)%Z ->
+  f64_build (map (map f32_cell) mb) bg = Ok d -> f64_scale_pred d = true.
+Proof. exact scale_pred_f32_any. Qed.
+
+(* ... hence p-values are non-increasing in the score in binary64 itself with NO hypothesis about the
+   distribution object: for every NaN-free f32 matrix with a finite cell that is not a constant beyond 2^52, every
+   background inside [0,1], dimensions inside f64_dims_ok, all doubles s1 <= s2 (infinities included).  The only
+   in-domain matrices left out are the constant ones with |cell| > 2^52, where the claim about the scale is FALSE
+   (ex_scale_pred_not_derivable: scale = +inf at 2^60). *)
+Theorem C11_pvalue_monotone_binary64_f32 : forall mb bg (d : dist F64.t) s1 s2 p1 p2,
+  f32_matrix_ok_any mb = true -> f64_bg_ok bg = true -> f64_dims_ok (length bg) (length mb) = true ->
+  f64_build (map (map f32_cell) mb) bg = Ok d ->
+  F64.le s1 s2 = true ->
+  d_pvalue F64Ops d s1 = Ok p1 -> d_pvalue F64Ops d s2 = Ok p2 ->
+  le_n F64Ops p2 p1 = true.
+Proof. exact pvalue_monotone_F64_f32. Qed.
+
+(* The table has M*1000 + 1 entries for EVERY numeric carrier (binary64 included): the buffers of the convolution
+   keep their length, the survival loop returns as many entries as the pdf has. *)
+Theorem C11_table_length_structural : forall (T : Type) (N : NumOps T) m bg d,
+  build N m bg = Ok d -> length (d_sf d) = (length m * cdf_range + 1)%nat.
+Proof. exact @build_table_length. Qed.
+
+(* The domain at its lower edge.  A matrix without any non-infinite cell -- no row at all (M = 0), or
+   only -inf cells -- makes `to_score_distribution` panic: `min_by(..).unwrap()` on an empty iterator
+   (dist.rs:139), site 1 of the model, for every numeric carrier.  The property's d = (M/2+1)
+   "discretisation steps" presupposes a step, i.e. a range of finite cells: such matrices are outside
+   C11's quantifier (c11_in_scope demands a row; C11_build_total demands a finite cell), the panic is
+   replayed bit-faithfully (corpus e0, e1) and `lightmotif-py` refuses them (a1b1f91). *)
+Theorem C11_no_finite_cell_panics : forall (T : Type) (N : NumOps T) m bg,
+  forallb (fun row : list (cell T) => (length row =? length bg)%nat) m = true ->
+  finite_cells N m = [] -> build N m bg = Panic 1.
+Proof. exact @build_no_finite_cell. Qed.
+
+Theorem C11_empty_matrix_panics : forall (T : Type) (N : NumOps T) bg, build N [] bg = Panic 1.
+Proof. exact @build_empty. Qed.
+
+(* The bracket with the TIGHT half width d = (M/2 + 1/2) steps = (M+1)/2 discretisation steps (|D - y| <= M/2 for the
+   word, |round(t) - t| <= 1/2 for the probe): for odd M exactly the integer reading floor(M/2)+1 of the property
+   text, for even M half a step narrower.  C11_pvalue_brackets_exact (d = M/2 + 1, rational) is the weaker
+   statement kept for the callers in coq/e2e. *)
+Theorem C11_pvalue_brackets_tight : forall m bg d offset scale s p,
+  bg_nonneg bg -> Qsum bg <= 1 ->
+  build QOps m bg = Ok d -> stage_a QOps m = Ok (offset, scale) ->
+  (Z.of_nat (length m) * 1000 < i32_max)%Z ->
+  d_pvalue QOps d s = Ok p ->
+  let dd := (inject_Z (Z.of_nat (length m)) / 2 + (1 # 2)) / scale in
+  tail_exact m bg (s + dd) <= p /\ p <= tail_exact m bg (s - dd).
+Proof. exact pvalue_brackets_tight_Q. Qed.
+
+(* ... and with the property text's d read literally: (M/2 + 1) steps, M/2 the INTEGER quotient *)
+Theorem C11_pvalue_brackets_integer_d : forall m bg d offset scale s p,
+  bg_nonneg bg -> Qsum bg <= 1 ->
+  build QOps m bg = Ok d -> stage_a QOps m = Ok (offset, scale) ->
+  (Z.of_nat (length m) * 1000 < i32_max)%Z ->
+  d_pvalue QOps d s = Ok p ->
+  let dd := inject_Z (Z.of_nat (length m) / 2 + 1) / scale in
+  tail_exact m bg (s + dd) <= p /\ p <= tail_exact m bg (s - dd).
+Proof. exact pvalue_brackets_integer_d_Q. Qed.
+
+(* The checker cannot fail open.  c11_bracket_fails answers "no failure" when the exact discretisation
+   step cannot be established (stage A of the exact model fails / scale <= 0); the strict checker the
+   driver runs reports exactly that as failure kind 8.  Inside the domain with at least two symbols it
+   never happens ... *)
+Theorem C11_bracket_always_judged : forall m bg br,
+  c11_in_scope m bg = true -> (2 <= length bg)%nat -> c11_bracket_unjudged m br = false.
+Proof. exact bracket_always_judged. Qed.
+
+(* ... so the strict checker is check_C11_fails as a function (no new alarm) ... *)
+Theorem C11_strict_checker_eq : forall grid m bg sf pv br rt, (2 <= length bg)%nat ->
+  check_C11_strict_fails grid m bg sf pv br rt = check_C11_fails m bg sf pv br rt.
+Proof. exact strict_eq_in_scope. Qed.
+
+(* ... and its empty answer establishes Holds_C11 together with the existence of the positive exact
+   scale whenever bracket probes were handed over: the bracket clause of Holds_C11 is not vacuous *)
+Theorem check_C11_strict_sound : forall grid m bg sf pv br rt,
+  check_C11_strict grid m bg sf pv br rt = true -> Holds_C11_strict m bg sf pv br rt.
+Proof. exact check_C11_strict_sound_lemma. Qed.
+
+(* ====================================================================== *)
 (* Tie of the hand-written model to the source text (regenerated on every   *)
 (* run by translate/dist_skel.py into GenDist.v)                            *)
 (* ====================================================================== *)
@@ -507,6 +644,39 @@ Check C11_pvalue_monotone_binary64 : forall (d : dist F64.t) s1 s2 p1 p2,
 Check C11_red_checker_eq : forall grid m bg sf pv br rt,
   check_C11_red_fails grid m bg sf pv br rt = check_C11_fails m bg sf pv br rt.
 
+Check C11_table_binary64 : forall m bg d,
+  f64_bg_ok bg = true -> f64_dims_ok (length bg) (length m) = true ->
+  f64_build m bg = Ok d ->
+  noninc f64_leP (d_sf d) /\ Forall (in01 F64Ops f64_leP) (d_sf d) /\
+  Forall (fun x => F64.is_finite x = true) (d_sf d).
+
+Check C11_pvalue_monotone_binary64_built : forall m bg (d : dist F64.t) s1 s2 p1 p2,
+  f64_bg_ok bg = true -> f64_dims_ok (length bg) (length m) = true ->
+  f64_build m bg = Ok d -> f64_scale_pred d = true ->
+  F64.le s1 s2 = true ->
+  d_pvalue F64Ops d s1 = Ok p1 -> d_pvalue F64Ops d s2 = Ok p2 ->
+  le_n F64Ops p2 p1 = true.
+
+Check C11_pvalue_brackets_integer_d : forall m bg d offset scale s p,
+  bg_nonneg bg -> Qsum bg <= 1 ->
+  build QOps m bg = Ok d -> stage_a QOps m = Ok (offset, scale) ->
+  (Z.of_nat (length m) * 1000 < i32_max)%Z ->
+  d_pvalue QOps d s = Ok p ->
+  let dd := inject_Z (Z.of_nat (length m) / 2 + 1) / scale in
+  tail_exact m bg (s + dd) <= p /\ p <= tail_exact m bg (s - dd).
+
+Check C11_pvalue_monotone_binary64_f32 : forall mb bg (d : dist F64.t) s1 s2 p1 p2,
+  f32_matrix_ok_any mb = true -> f64_bg_ok bg = true -> f64_dims_ok (length bg) (length mb) = true ->
+  f64_build (map (map f32_cell) mb) bg = Ok d ->
+  F64.le s1 s2 = true ->
+  d_pvalue F64Ops d s1 = Ok p1 -> d_pvalue F64Ops d s2 = Ok p2 ->
+  le_n F64Ops p2 p1 = true.
+
+Check C11_empty_matrix_panics : forall (T : Type) (N : NumOps T) bg, build N [] bg = Panic 1.
+
+Check check_C11_strict_sound : forall grid m bg sf pv br rt,
+  check_C11_strict grid m bg sf pv br rt = true -> Holds_C11_strict m bg sf pv br rt.
+
 (* ====================================================================== *)
 (* Non-vacuity: the hypotheses are satisfiable and the conclusions bite     *)
 (* ====================================================================== *)
@@ -637,3 +807,59 @@ Example ex_no_word_lost :
   | _ => False
   end.
 Proof. split; [vm_compute; tauto|]. split; vm_compute; reflexivity. Qed.
+
+(* the hypotheses of the binary64 table theorem: the uniform f32 background is inside [0,1]; the dimension
+   bound is M <= 341 for DNA (K = 5, c = 3) and M <= 204 for proteins (K = 21, c = 5); and the theorem
+   bites on the example matrix (its table has 1001 entries) *)
+Example ex_binary64_hyps :
+  f64_bg_ok (map f32_val bg_uniform32) = true /\
+  (f64_dims_ok 5 341, f64_dims_ok 5 342, f64_dims_ok 21 204, f64_dims_ok 21 205) = (true, false, true, false) /\
+  match f64_build (map (map f32_cell) [[0; 1065353216; 1073741824; 1077936128; ninf32]]%Z) (map f32_val bg_uniform32) with
+  | Ok d => (f64_scale_pred d, length (d_sf d)) | _ => (false, 0%nat) end = (true, 1001%nat).
+Proof. conj_all; vm_compute; reflexivity. Qed.
+
+(* the scale part is not implied by the domain: a constant matrix with cells 2^60 (finite f32) is inside
+   c11_in_scope, the construction answers, and its scale is +inf (large - 1.0 == large in binary64, so
+   large - offset = 0): replayed on the real code by corpus line x1 *)
+Example ex_scale_pred_not_derivable :
+  let m := [[1568669696; 1568669696; 1568669696; 1568669696; ninf32]]%Z in
+  c11_in_scope (map (map f32_val) m) (map f32_val bg_uniform32) = true /\
+  match f64_build (map (map f32_cell) m) (map f32_val bg_uniform32) with
+  | Ok d => (f64_scale_pred d, F64.to_bits (d_scale_f d)) | _ => (true, 0%Z) end = (false, 9218868437227405312%Z).
+Proof. cbv zeta. split; vm_compute; reflexivity. Qed.
+
+(* M = 0 and an all -inf row on the bit-exact model: Panic 1 (corpus e0, e1 replay the panic of the code) *)
+Example ex_no_finite_cell :
+  f64_build [] (map f32_val bg_uniform32) = Panic 1 /\
+  f64_build (map (map f32_cell) [[ninf32; ninf32; ninf32; ninf32; ninf32]]) (map f32_val bg_uniform32) = Panic 1 /\
+  c11_in_scope [] (map f32_val bg_uniform32) = false /\
+  c11_in_scope (map (map f32_val) [[ninf32; ninf32; ninf32; ninf32; ninf32]]) (map f32_val bg_uniform32) = false.
+Proof. conj_all; vm_compute; reflexivity. Qed.
+
+(* failure kind 8 exists: a one-symbol alphabet whose only (wildcard) cell is -inf is inside c11_in_scope,
+   the old checker answers "no failure" for any bracket probe, the strict one "cannot judge" *)
+Example ex_strict_kind8 :
+  let m := [[f32_val ninf32]] in let bg := [f32_val 1065353216] in
+  c11_in_scope m bg = true /\
+  check_C11_fails m bg [] [] [(f32_val 0, f32_val 0)] [] = [] /\
+  check_C11_strict_fails false m bg [] [] [(f32_val 0, f32_val 0)] [] = [(8, 0)%nat].
+Proof. cbv zeta. conj_all; vm_compute; reflexivity. Qed.
+
+(* the tight bracket on the example (M = 1, scale 333, d = 1/333): pvalue(1) = 3/4 = P(S >= 1 - 1/333), above
+   P(S >= 1 + 1/333) = 1/2 -- the upper bound is attained *)
+Example ex_tight :
+  tail_exact ex_m ex_bg (1 - (inject_Z 1 / 2 + (1 # 2)) / 333) == 3 # 4 /\
+  tail_exact ex_m ex_bg (1 + (inject_Z 1 / 2 + (1 # 2)) / 333) == 1 # 2.
+Proof. split; vm_compute; reflexivity. Qed.
+
+(* f32_matrix_ok_any holds of the ordinary example matrix (cells 0,1,2,3,-inf), of the witness of the known
+   finding and of a constant matrix of zeros (through f32_matrix_ok_const); it fails on the constant matrix 2^60
+   and on a matrix with a NaN cell (2143289344) *)
+Example ex_f32_matrix_ok :
+  f32_matrix_ok [[0; 1065353216; 1073741824; 1077936128; ninf32]]%Z = true /\
+  f32_matrix_ok_any [[1166016512; 1166016512; 1166016513; 1166016514; ninf32];
+                     [1166016512; 1166016513; 1166016513; 1166016514; ninf32]]%Z = true /\
+  (f32_matrix_ok [[0; 0; 0; 0; ninf32]]%Z, f32_matrix_ok_const [[0; 0; 0; 0; ninf32]]%Z) = (false, true) /\
+  f32_matrix_ok_any [[1568669696; 1568669696; 1568669696; 1568669696; ninf32]]%Z = false /\
+  f32_matrix_ok_any [[0; 2143289344; 1073741824; 1077936128; ninf32]]%Z = false.
+Proof. conj_all; vm_compute; reflexivity. Qed.
